@@ -1047,7 +1047,7 @@ def op_evolve(w, s):
         src.compress(temp_m_trunc=max(src.bond_dims) + 1)
         w.changed.add(a)
         w.check_value(a, {"C11"}, "C11.compress_lossless.dense", what="lossless compress before evolve")
-    if method in ("ps", "ps2") and not src.is_canonical():
+    if method in ("ps", "ps2", "vmf") and not src.is_canonical():
         # documented precondition of the sweep algorithms (check_canonical): "another holder" canonicalises first
         src.canonicalise()
         w.changed.add(a)
